@@ -71,6 +71,7 @@ func runC09(e *Env) {
 		for _, q := range []string{"net.Conn.Close", "net.UDPConn.Close", "net.TCPListener.Close", "net.TLSListener.Close", "net.DTLSListener.Close"} {
 			c09CloseOnce(e, q)
 		}
+		c09CloseTakesNoIOLock(e)
 	}
 	sessions := []string{"tcp/client.Session", "udp/server.Session", "dtls/server.Session"}
 	if e.want("C09.R3") {
@@ -240,6 +241,48 @@ func c09CloseOnce(e *Env, q string) {
 		ok = !oldV && newV && g
 	}
 	e.R.Check(ok, rule, q+":close-once", e.fpos(f), "the underlying Close is reachable only on the successful CompareAndSwap(false, true) edge", "the underlying Close can run more than once (or concurrently)")
+}
+
+// c09CloseTakesNoIOLock: Close of the stream wrapper must not wait for a mutex that writers hold across blocking socket I/O.
+func c09CloseTakesNoIOLock(e *Env) {
+	rule := "C09.R2"
+	for _, typ := range []string{"net.Conn", "net.UDPConn"} {
+		ioLocks := map[string]string{}
+		for _, f := range methodsOf(e, rule, typ) {
+			la := core.AnalyzeLocks(f)
+			if len(la.Sites) == 0 {
+				continue
+			}
+			core.Instrs(f, func(in ssa.Instruction) {
+				c, ok := in.(*ssa.Call)
+				if !ok {
+					return
+				}
+				n := core.CalleeName(c)
+				if !(strings.HasSuffix(n, ".Write") || strings.HasSuffix(n, ".Read") || strings.HasSuffix(n, ".WriteTo") || strings.HasSuffix(n, ".WriteMsgUDP") || strings.HasSuffix(n, ".ReadFrom")) {
+					return
+				}
+				for p := range la.At(c) {
+					ioLocks[shortType(p)] = core.FnName(f)
+				}
+			})
+		}
+		cl := e.fn(rule, typ+".Close")
+		if cl == nil {
+			continue
+		}
+		bad := ""
+		core.Instrs(cl, func(in ssa.Instruction) {
+			if c, ok := in.(ssa.CallInstruction); ok {
+				if op, path, is := core.MutexOp(c); is && (op == "Lock" || op == "RLock") {
+					if holder, has := ioLocks[shortType(path)]; has {
+						bad = fmt.Sprintf("Close waits for %s, which %s holds across a blocking socket operation: with a stalled peer Close never returns and the socket is never closed", path, holder)
+					}
+				}
+			}
+		})
+		e.R.Check(bad == "", rule, typ+".Close:takes-no-io-lock", e.fpos(cl), fmt.Sprintf("Close acquires none of the %d mutex(es) held across blocking socket I/O", len(ioLocks)), bad)
+	}
 }
 
 func c09PopOnClose(e *Env, sess string) {
